@@ -195,7 +195,7 @@ let handle (x : sexp) : (string * string) list =
          if not r.valid then add i r "specfail" "valid_response the response is not valid JSON"
          else if not r.env then add i r "specfail" "valid_response the envelope is not {errors?,data}";
          let nhard = List.length (List.filter (fun (f, k) -> hard_kind k && List.mem f base_fids) r.faults) in
-         if not (errors_nonempty_b (n_of_int nhard) (n_of_int r.nerr)) then
+         if r.valid && not (errors_nonempty_b (n_of_int nhard) (n_of_int r.nerr)) then
            add i r "specfail" "errors_nonempty a request failed but the response reports no error";
          (match r.data with
           | None -> if r.valid then add i r "specfail" "valid_response no data member"
